@@ -344,7 +344,13 @@ func (r *Rdot) MarshalText() (text []byte, err error) {
 func (r *Ripmap) MarshalText() (text []byte, err error) {
 	w := new(bytes.Buffer)
 	w.WriteString(string(prefixIPMap))
-	putdomtext(w, r.dom)
+	dom := r.dom
+	if bytes.HasPrefix(dom, []byte("*.")) {
+		// keep the wildcard marker apart so that the root wildcard "*." survives
+		w.WriteString("*.")
+		dom = dom[2:]
+	}
+	putdomtext(w, dom)
 	w.Write(NSEP)
 	putlmaptext(w, r.lmap)
 	return w.Bytes(), nil
@@ -354,7 +360,13 @@ func (r *Ripmap) MarshalText() (text []byte, err error) {
 func (r *Rcsmap) MarshalText() (text []byte, err error) {
 	w := new(bytes.Buffer)
 	w.WriteString(string(prefixCSMap))
-	putdomtext(w, r.dom)
+	dom := r.dom
+	if bytes.HasPrefix(dom, []byte("*.")) {
+		// keep the wildcard marker apart so that the root wildcard "*." survives
+		w.WriteString("*.")
+		dom = dom[2:]
+	}
+	putdomtext(w, dom)
 	w.Write(NSEP)
 	putlmaptext(w, r.lmap)
 	return w.Bytes(), nil
